@@ -107,9 +107,13 @@ class Site:
 class Eval:
     """Result of evaluating one function body."""
 
-    def __init__(self, fn, promoted_of=None):
+    def __init__(self, fn, promoted_of=None, assume=None):
         self.fn = fn
         self.prog = fn.prog
+        # specialisation: {(param name, projection path string): variant name}; switch edges on the
+        # discriminant of such a place that contradict the assumption are treated as dead
+        self.assume = dict(assume or {})
+        self.dead = set()
         self.sites = {}  # bb -> Site
         self.switch = {}  # bb -> discr term
         self.ret = UNDEF  # merged returned value
@@ -372,7 +376,9 @@ class Eval:
         exit_state = {}
         ret_vals = []
         for b in order:
-            preds = [(p, l) for (p, l) in cfg.pred[b] if (p, b) not in back and p in exit_state]
+            preds = [(p, l) for (p, l) in cfg.pred[b] if (p, b) not in back and p in exit_state and (p, b, l) not in self.dead]
+            if b != 0 and not preds and self.assume:
+                continue  # unreachable under the assumption
             if b == 0 and not preds:
                 st = {}
             else:
@@ -425,6 +431,36 @@ class Eval:
                         self.loop_step[key] = mk_phi([self.loop_step[key], v])
                     else:
                         self.loop_step[key] = v
+
+    def _apply_assumption(self, b, t):
+        """Mark switch edges that contradict self.assume as dead."""
+        d = self.switch.get(b)
+        if d is None or d.op != "discr":
+            return
+        root = place_root(d.a[0])
+        if root is None or root not in self.assume:
+            return
+        want = self.assume[root]
+        # which ADT is switched on: from the discriminant statement in this block
+        blk = self.fn.blocks[b]
+        pl = t["discr"].get("move") or t["discr"].get("copy")
+        adt = None
+        for s in blk["stmts"]:
+            if s["k"] == "assign" and pl and s["place"] == {"l": pl["l"]} and "discr" in s["rv"]:
+                adt = self.prog.adts_by_path.get(s["rv"].get("adt_path")) or self.prog.adts.get(s["rv"].get("adt"))
+        if adt is None:
+            return
+        val = None
+        for v in adt["variants"]:
+            if v["name"] == want:
+                val = v.get("discr", v["index"])
+        if val is None:
+            return
+        arms = {v: tg for v, tg in t["arms"]}
+        keep_label = ("sw", b, val) if val in arms else ("sw", b, "otherwise")
+        for tgt, lab in self.fn.cfg.succ[b]:
+            if lab is not None and lab != keep_label:
+                self.dead.add((b, tgt, lab))
 
     def _block(self, b, st):
         fn = self.fn
@@ -483,6 +519,8 @@ class Eval:
                 self.write_place(t["dest"], val, st)
         elif k == "switch":
             self.switch[b] = self.value_of(self.operand(t["discr"], st), st)
+            if self.assume:
+                self._apply_assumption(b, t)
         elif k == "assert":
             self.asserts[b] = (
                 self.value_of(self.operand(t["cond"], st), st),
@@ -495,12 +533,30 @@ class Eval:
 _cache = {}
 
 
-def evaluate(fn):
-    ev = _cache.get(id(fn))
+def evaluate(fn, assume=None):
+    key = (id(fn), tuple(sorted((assume or {}).items())))
+    ev = _cache.get(key)
     if ev is None:
-        ev = Eval(fn)
-        _cache[id(fn)] = ev
+        ev = Eval(fn, assume=assume)
+        _cache[key] = ev
     return ev
+
+
+def place_root(t):
+    """(param name, path) if t is a pure projection of a parameter, else None."""
+    path = []
+    while True:
+        if t.op in ("ref", "deref"):
+            t = t.a[0]
+        elif t.op == "field":
+            path.append("." + str(t.a[1]))
+            t = t.a[0]
+        elif t.op == "call" and t.a[0][0] in ("Clone::clone", "Deref::deref", "AsRef::as_ref", "Borrow::borrow") and len(t.a[1]) == 1:
+            t = t.a[1][0]
+        elif t.op == "param":
+            return (t.a[1], "".join(reversed(path)))
+        else:
+            return None
 
 
 # ---------------------------------------------------------------------------
